@@ -1708,6 +1708,12 @@ func (g *G) Case() *core.Case {
 		}
 		c.Files = moved
 	}
+	// goimports in GOPATH mode guesses package names and may swap imports (F-N-gopath)
+	if cfg.Fmt == "goimports" && g.gopath {
+		if g.excluded("F-N") {
+			cfg.Fmt = ""
+		}
+	}
 	// goimports from a foreign cwd cannot see packages whose name differs from the last path element (F-N)
 	if cfg.Fmt == "goimports" && cfg.Invoke == "foreignabs" {
 		if g.excluded("F-N") {
